@@ -43,7 +43,17 @@ META = {
                   "turn fraction); scipy spsolve enters only as 'returns a solution' (its output is checked each run); "
                   "cmath.rect(r,t) = (r cos t, r sin t); numpy fancy indexing / csc duplicate summation / sequential "
                   "element assignment are modelled by hand and tied by the correspondence; connectivity "
-                  "(vertex_to_corners, border cycle, interior/boundary lists) is taken as observed and re-checked.",
+                  "(vertex_to_corners, border cycle, interior/boundary lists) is taken as observed and re-checked. "
+                  "Deliberately left free: the exception class and message of a refusal (a refusal is legitimate iff "
+                  "V-E+F<>1, decided from the input; for a disk any exception is a violation); whether argument forms the "
+                  "text does not name are answered or refused (non-bool flags, numpy integer face indices, float32 custom "
+                  "array, a pre-existing uv_coords attribute, an unknown mode name) - if answered the answer must satisfy "
+                  "the property; the starting vertex and direction of the border walk and the orientation sign of the "
+                  "embedding; the order of the interior index list; last-bit float differences (house tolerance "
+                  "1e-9(1+|x|) everywhere, collinearity on the square decided with it); what run()/worker() return, log "
+                  "lines, warnings, extra attributes left on the mesh, dtypes; side effects on the input mesh or on the "
+                  "caller's array (recorded, judged only through their consequences on later embeddings); equal spacing "
+                  "on the circle. NOT free (fixed by the documented API): custom row k belongs to mesh.boundary_vertices[k].",
 }
 
 EXACT_ORIENT_BITS = 1500
@@ -379,6 +389,29 @@ def certificate(case, obs):
     return {"D": D, "NU": NU, "NV": NV, "B": B, "posw": posw}
 
 
+def canonical_border(case, obs):
+    """The starting vertex and the direction of the border walk are free.  For circle / square the model numbers the
+    border by increasing curve parameter, so the border list handed to the model is the set of border vertices sorted by
+    the parameter of their OBSERVED position (for the pristine code this is extract_border_cycle's order)."""
+    if case["mode"] == "custom" or not obs.get("bnd"):
+        return
+    uv = obs["uv_vertex"]
+
+    def par(v):
+        x, y = uv[v]
+        if case["mode"] == "circle":
+            return math.atan2(y, x) % (2 * math.pi) if abs(math.atan2(y, x)) > 1e-12 else 0.0
+        e = 1e-9
+        if abs(y) <= e and x < 1 - e:
+            return x
+        if abs(x - 1) <= e and y < 1 - e:
+            return 1 + y
+        if abs(y - 1) <= e and x > e:
+            return 3 - x
+        return 4 - y
+    obs["bnd"] = sorted(obs["bnd"], key=par)
+
+
 def turn_pairs(case, obs):
     if case["mode"] != "circle":
         return []
@@ -625,10 +658,16 @@ def run(ctx):
                        cases[ci].get("seq"), step], nontrivial=nontrivial,
                       sample={"mode": c["mode"], "cotan": c["cotan"], "n_vertices": len(c["verts"]), "faces": c["faces"][:6],
                               "status": st, "uv_vertex": (o.get("uv_vertex") or [])[:4]})
-        if st == "rejected":
+        if o.get("_input_changed"):
+            ctx.count("input mesh vertices changed by the embedding (not constrained by the text; recorded only)")
+        if o.get("_refused_unnamed_form"):
+            ctx.count("refused an argument form the property does not name (accepted): " + str(o.get("exception"))[:60])
+        elif st == "rejected":
+            ctx.count("refusal raised " + str(o.get("exception")).split(":")[0])
             terms.append(unit_term(c, case_term(c, o, None)))
             term_idx.append(ui)
         elif st == "ok":
+            canonical_border(c, o)
             try:
                 cert = certificate(c, o)
             except Exception as ex:      # e.g. the implementation did not leave the cotangents it was asked to use
@@ -721,7 +760,7 @@ def seq_views(case):
                 stale = True
         if st.get("pre") in ("cotangent", "angles"):
             cache = True
-        view = dict(case, mode=st["mode"], cotan=st["cotan"], call=st.get("call"), verts=verts)
+        view = dict(case, mode=st["mode"], cotan=st["cotan"], call=st.get("call"), verts=verts, _pre=st.get("pre"))
         out.append((view, bool(stale and st["cotan"])))
         if st["cotan"]:
             cache = True
